@@ -313,7 +313,7 @@ def corr_find(ck: Ck) -> None:
         # direct oracle: every (first, count) must select the requested run of the final table
         for s, k in zip(subs, idx2):
             if s and lst2[k:k + len(s)] != s:
-                ck.violation('find_or_extend:tail-overlap' if k + len(s) > len(lst2) or True else 'find_or_extend',
+                ck.violation('find_or_extend:tail-overlap',
                              'find_or_extend returned a position where the table does not hold the requested items',
                              {'initial': init, 'requests': subs, 'indexes': idx2, 'final_table': lst2,
                               'how': 'binformat.find_or_extend(list(initial), lambda x: x) applied to each request'})
@@ -626,6 +626,8 @@ def run(ck: Ck) -> None:
     keys = {v['key'] for v in ck.violations}
     if any(k.startswith('detail_props') for k in keys):
         ck.explain('instance:detail_kind_dispatch')
+    if any(k.startswith('visibility') or k.startswith('no-reject:visibility') for k in keys):
+        ck.explain('correspondence:rle')
     if any(k.startswith('find_or_extend') or 'tail_overlap' in k or 'shared_objects' in k for k in keys):
         ck.explain('instance:find_or_extend_checks_bounds')
         ck.explain('correspondence:find')
